@@ -24,6 +24,7 @@ from concurrent.futures import ThreadPoolExecutor
 
 sys.path.insert(0, os.path.dirname(os.path.abspath(__file__)))
 import pmhv
+sys.setrecursionlimit(20000)
 
 FUNCS = ["int64_hash", "int64_hash_inverse", "int32_hash", "int32_hash_inverse"]
 WIDTH = {"u8": 8, "u16": 16, "u32": 32, "u64": 64, "usize": 64, "i8": 8, "i16": 16, "i32": 32, "i64": 64,
@@ -77,7 +78,35 @@ def split_functions(mir):
 # ------------------------------------------------------------------------------------------
 
 def mk(op, w, *args):
-    return (op, w) + tuple(args)
+    """term constructor with constant folding (loops with concrete counters then unroll by themselves and
+    branches on concrete conditions are not forked)"""
+    t = (op, w) + tuple(args)
+    if op not in ("const", "var") and all(isinstance(a, tuple) and a[0] == "const" for a in args):
+        try:
+            return ("const", w, evaluate(t, {}) & ((1 << w) - 1))
+        except Untranslatable:
+            return t
+    if op in ("shl", "lshr") and args[1][0] == "const":
+        n = args[1][2]
+        if n >= w:
+            return ("const", w, 0)
+        if n == 0:
+            return args[0]
+        inner = args[0]
+        if inner[0] == op and inner[3][0] == "const":
+            tot = n + inner[3][2]
+            if tot >= w:
+                return ("const", w, 0)
+            return (op, w, inner[2], ("const", w, tot))
+    if op in ("zext", "trunc") and args[0][0] == "const":
+        return ("const", w, args[0][2] & ((1 << w) - 1))
+    if op == "ite" and args[0][0] == "const":
+        return args[1] if args[0][2] else args[2]
+    if op == "and" and w == 1:
+        for a, b in ((args[0], args[1]), (args[1], args[0])):
+            if a[0] == "const":
+                return b if a[2] else ("const", 1, 0)
+    return t
 
 
 def const(v, w):
@@ -301,7 +330,9 @@ def is_signed(ty):
 class Exec:
     """symbolic execution; `cut_local` = the user variable whose assignments are stage cuts"""
 
-    def __init__(self, fn, cut=True):
+    def __init__(self, fn, cut=True, all_fns=None, call_depth=0):
+        self.all_fns = all_fns or {}
+        self.call_depth = call_depth
         self.fn = fn
         self.obligations = []   # (description, term(bool width 1) that must be 1)
         self.stages = []        # list of (in_var_name, term)
@@ -324,6 +355,15 @@ class Exec:
         if m:
             ty = m.group(2)
             return const(int(m.group(1)), WIDTH[ty]), ty
+        m = re.match(r"^const core::num::<impl (\w+)>::(MAX|MIN|BITS)$", s)
+        if m:
+            ty = m.group(1)
+            w = WIDTH[ty]
+            if m.group(2) == "BITS":
+                return const(w, 32), "u32"
+            if m.group(2) == "MAX":
+                return const((1 << (w - 1)) - 1 if is_signed(ty) else (1 << w) - 1, w), ty
+            return const((1 << (w - 1)) if is_signed(ty) else 0, w), ty
         m = re.match(r"^const (true|false)$", s)
         if m:
             return const(1 if m.group(1) == "true" else 0, 1), "bool"
@@ -424,7 +464,17 @@ class Exec:
                 if m:
                     ret_src = m.group(1)
         straight = not any(re.match(r"^switchInt", l) for lines in fn.blocks.values() for l in lines)
-        if not (ret_src and straight and ret_src in fn.debug.values()):
+        if not (ret_src and ret_src in fn.debug.values()):
+            # the result is not a plain copy of a user variable (e.g. `_0 = min(key, ..)`): cut at the user
+            # variable that is assigned most often; the tail expression becomes a last stage
+            cnt = {}
+            for lines in fn.blocks.values():
+                for l in lines:
+                    mm = re.match(r"^(_\d+) = ", l)
+                    if mm and mm.group(1) in fn.debug.values() and mm.group(1) not in fn.params:
+                        cnt[mm.group(1)] = cnt.get(mm.group(1), 0) + 1
+            ret_src = max(cnt, key=cnt.get) if cnt else None
+        if not (ret_src and straight):
             self.cut = False
         self.cut_local = ret_src
         p = fn.params[0]
@@ -437,8 +487,8 @@ class Exec:
 
     def exec_block(self, bb, env, pc, depth):
         fn = self.fn
-        if depth > 400:
-            raise Untranslatable("%s: control flow too deep (loop?)" % fn.name)
+        if depth > 3000:
+            raise Untranslatable("%s: control flow too deep (loop with a symbolic bound?)" % fn.name)
         for l in fn.blocks[bb]:
             if l.startswith(("StorageLive", "StorageDead", "nop", "FakeRead", "PlaceMention", "//")):
                 continue
@@ -451,10 +501,42 @@ class Exec:
                 return self.exec_block(m.group(4), env, pc, depth + 1)
             m = re.match(r"^(_\d+) = ([A-Za-z0-9_:<> ]+)\((.*)\) -> \[return: (bb\d+), unwind.*\];$", l)
             if m:
-                callee = m.group(2).split("::")[-1]
+                callee = m.group(2).strip().split("::")[-1]
+                args = [self.operand(a, env) for a in self.split_args(m.group(3))]
+                if callee in ("min", "max") and len(args) == 2:
+                    (a, aty), (b, bty) = args
+                    lt = mk(("s" if is_signed(aty) else "u") + "lt", 1, a, b)
+                    res = mk("ite", width(a), lt, a, b) if callee == "min" else mk("ite", width(a), lt, b, a)
+                    self.assign(m.group(1), res, env)
+                    return self.exec_block(m.group(4), env, pc, depth + 1)
+                if callee in ("wrapping_neg",) and len(args) == 1:
+                    self.assign(m.group(1), mk("neg", width(args[0][0]), args[0][0]), env)
+                    return self.exec_block(m.group(4), env, pc, depth + 1)
+                if callee in ("wrapping_shl", "wrapping_shr") and len(args) == 2:
+                    (a, aty), (b, bty) = args
+                    w = width(a)
+                    amt = mk("and", w, self.shift_amount(b, bty, w), const(w - 1, w))
+                    self.assign(m.group(1), mk("shl" if callee == "wrapping_shl" else ("ashr" if is_signed(aty) else "lshr"), w, a, amt), env)
+                    return self.exec_block(m.group(4), env, pc, depth + 1)
+                if callee in self.all_fns and callee not in CALLS:
+                    # a helper defined in the same file: inline it (its asserts become obligations under pc)
+                    params, ret, body = self.all_fns[callee]
+                    cf = Fn(callee, params, ret, body)
+                    sub = Exec(cf, cut=False, all_fns=self.all_fns, call_depth=self.call_depth + 1)
+                    if self.call_depth > 8:
+                        raise Untranslatable("call depth")
+                    cenv = {}
+                    for pl, (aterm, aty) in zip(cf.params, args):
+                        cenv[pl] = aterm
+                    sub.cut = False
+                    sub.cut_local = None
+                    sub.cur_in = self.cur_in
+                    r = sub.exec_block("bb0", cenv, pc, 0)
+                    self.obligations += sub.obligations
+                    self.assign(m.group(1), r, env)
+                    return self.exec_block(m.group(4), env, pc, depth + 1)
                 if callee not in CALLS:
                     raise Untranslatable("%s: call to %s" % (fn.name, m.group(2)))
-                args = [self.operand(a, env) for a in self.split_args(m.group(3))]
                 a, aty = args[0]
                 b, bty = args[1]
                 w = width(a)
@@ -471,6 +553,15 @@ class Exec:
             if m:
                 c, cty = self.operand(m.group(1), env)
                 targets = [t.strip() for t in m.group(2).split(",")]
+                if c[0] == "const":
+                    dest = None
+                    for t in targets:
+                        kk, tb = [x.strip() for x in t.split(":")]
+                        if kk != "otherwise" and int(kk) == c[2]:
+                            dest = tb
+                    if dest is None:
+                        dest = [t.split(":")[1].strip() for t in targets if t.strip().startswith("otherwise")][0]
+                    return self.exec_block(dest, env, pc, depth + 1)
                 res = None
                 taken = []
                 for t in reversed(targets):
@@ -506,10 +597,13 @@ class Exec:
 def translate(fnsrc, name):
     params, ret, body = fnsrc[name]
     fn = Fn(name, params, ret, body)
-    ex = Exec(fn, cut=True)
+    ex = Exec(fn, cut=True, all_fns=fnsrc)
     res = ex.run()
     # the last stage: the returned value in terms of the last stage variable
     stages = list(ex.stages)
+    if ex.cut and not (res[0] == "var" and res[2] == ex.cur_in):
+        # tail stage: the returned value as a function of the last stage variable
+        stages.append((ex.cur_in, res))
     if ex.cut:
         # `_0 = copy X` gives var(cur_in): all stages recorded. Merge stages whose term refers to older variables
         fixed = []
@@ -853,6 +947,28 @@ def check(prop, spec, tier, seed, args):
                     break
             if found:
                 continue
+            # stage counts differ: a surplus stage must be the identity; a non-identity stage gives a solver
+            # model that is turned into inputs (directly, and through the compiled other function)
+            if len(fs) != len(gs):
+                probes = []
+                for nm, lst in (("forward", fs), ("inverse", gs)):
+                    for si, (sin, st) in enumerate(lst):
+                        q = query(work, "%s_%s_stage%d_identity" % (fwd, nm, si + 1), [(sin, w)], [mk("ne", 1, st, var(sin, w))], 5)
+                        if q["verdict"] == "sat" and sin in q["model"]:
+                            probes.append(q["model"][sin])
+                cset = []
+                for yv in probes[:16]:
+                    for c in (yv, native.call([(inv, yv)], "release")[0], native.call([(fwd, yv)], "release")[0]):
+                        if c is not None and c not in cset:
+                            cset.append(c)
+                for c in cset:
+                    for kind in ("GF", "FG"):
+                        if not found and replay_pair(native, fwd, inv, kind, c):
+                            violations.append(dict(kind=kind, func=fwd, x=c, why="non-identity surplus stage, solver model mapped to an input"))
+                            found = True
+                if found:
+                    notes.append("%s: counterexample derived from a non-identity surplus stage" % fwd)
+                    continue
             # monolithic
             x = var("x", w)
             gf = substitute(G["whole"], G["in_name"], substitute(F["whole"], F["in_name"], x))
